@@ -28,10 +28,11 @@ var PidPool = map[string]string{
 	"o_pa_x": authboss.MakeOAuth2PID("pa", "x1"),
 	"o_pa_y": authboss.MakeOAuth2PID("pa", "y 2"),
 	"o_pb_x": authboss.MakeOAuth2PID("pb", "x1"),
+	"o_pb_y": authboss.MakeOAuth2PID("pb", "y 2"),
 }
 
 // AllPids is the fixed abstract account pool (spec constant Pids).
-var AllPids = []string{"u1", "u2", "u3", "g1", "o_pa_x", "o_pa_y", "o_pb_x"}
+var AllPids = []string{"u1", "u2", "u3", "g1", "o_pa_x", "o_pa_y", "o_pb_x", "o_pb_y"}
 
 var OUidPool = map[string]string{"x": "x1", "y": "y 2"}
 
@@ -66,6 +67,7 @@ type UserObs struct {
 	Rcg      int      `json:"rcg"`
 	RcLeft   []int    `json:"rcLeft"`
 	Totp     int      `json:"totp"`
+	TotpLast int      `json:"totpLast"`
 	Sms      int      `json:"sms"`
 	Arb      []string `json:"arb"`
 	Email    string   `json:"email"`
@@ -123,6 +125,8 @@ type World struct {
 	rmCookie   map[string]string // hash -> cookie value (when seen)
 
 	T0      time.Time // reference instant for TOTP codes of this world
+	smsTick map[string]int    // browser -> abstract tick at which sms_last was written
+	smsSeen map[string]string // browser -> sms_last value as last written by the harness/library
 	pwCache map[string]int
 	rcCache map[string][2]int // bcrypt hash -> (gen, idx)
 	Secrets []Secret          // every plaintext secret known to the harness (C17)
@@ -140,7 +144,7 @@ func NewWorld(cfg Config, pids, browsers []string) (*World, error) {
 		return nil, err
 	}
 	w := &World{In: in, Pids: pids, Browsers: browsers, rmCookie: map[string]string{}, T0: time.Now(),
-		pwCache: map[string]int{}, rcCache: map[string][2]int{}}
+		pwCache: map[string]int{}, rcCache: map[string][2]int{}, smsTick: map[string]int{}, smsSeen: map[string]string{}}
 	in.Store.onAddRm = func(hash string) { w.rmHash = append(w.rmHash, hash) }
 	return w, nil
 }
@@ -284,6 +288,16 @@ func (w *World) userObs(u *User, now time.Time) UserObs {
 	if u.TOTPSecretKey != "" {
 		o.Totp = idxOf(w.ts, u.TOTPSecretKey)
 	}
+	if u.TOTPLastCode != "" {
+		o.TotpLast = -1
+		for i := range w.ts {
+			for which := 1; which <= 3; which++ {
+				if w.totpCodeAt(i+1, which) == u.TOTPLastCode {
+					o.TotpLast = (i+1)*10 + which
+				}
+			}
+		}
+	}
 	o.Sms = 0
 	if u.SMSPhone != "" {
 		o.Sms = idxOf(PhonePool, u.SMSPhone)
@@ -383,6 +397,7 @@ func (w *World) cookieId(v string) int {
 
 // Project maps the real world to the spec's observable state.
 func (w *World) Project() Obs {
+	w.rebaseSMS()
 	now := time.Now().UTC()
 	o := Obs{Now: w.Now, Db: map[string]UserObs{}, Sess: map[string]SessObs{}, Cookie: map[string]int{}, Rm: []RmObs{}}
 	for _, a := range AllPids {
@@ -416,4 +431,31 @@ func (w *World) Project() Obs {
 // scenario is re-run).
 func (w *World) SamePeriod() bool {
 	return w.T0.Unix()/30 == time.Now().Unix()/30
+}
+
+// rebaseSMS rewrites every session's sms_last so that its age is exactly the
+// number of abstract ticks since it was written (real run time is erased);
+// noteSMS records when the library wrote a new value.
+func (w *World) rebaseSMS() {
+	now := time.Now().UTC().Unix()
+	for _, b := range w.Browsers {
+		if _, ok := w.In.Sess.Get(b)[sms2fa.SessionSMSLast]; ok {
+			v := strconv.FormatInt(now-int64(w.Now-w.smsTick[b])*int64(Unit/time.Second), 10)
+			w.In.Sess.Set(b, sms2fa.SessionSMSLast, v)
+			w.smsSeen[b] = v
+		}
+	}
+}
+
+func (w *World) noteSMS() {
+	for _, b := range w.Browsers {
+		v, ok := w.In.Sess.Get(b)[sms2fa.SessionSMSLast]
+		if ok && v != w.smsSeen[b] {
+			w.smsTick[b] = w.Now
+			w.smsSeen[b] = v
+		}
+		if !ok {
+			delete(w.smsSeen, b)
+		}
+	}
 }
